@@ -125,6 +125,10 @@ def cases_for(ctx):
                 add(name, m, kind, test, g, eps, mbs=1)
             else:
                 add(name, m, kind, test, g, eps)
+    # (A') anchor family (sign-symmetric value changes): all 81 members x the rows with a stated bound
+    for (name, m), (kind, test) in itertools.product(named("Manchor", AL.Manchor()), ROWS if not q else [("vi", "span"), ("pi", "span"), ("vi", "max_diff")]):
+        for g in ((0.9,) if q else (0.5, 0.9)):
+            add(name, m, kind, test, g, 0.01, **({"mbs": 1} if kind == "savi" else {}))
     # (B) secondary axes, each crossed with the rows, on M1 + Mtie + a slice of M2d
     m2d = named("M2d", AL.M2d())
     if q:
